@@ -158,6 +158,8 @@ func (p *P) Return(key string, c Conn) {
 	defer p.keysLock.Unlock()
 
 	if p.keys == nil {
+		// The pool is closed and will not hand the connection out again.
+		go c.Close()
 		return
 	}
 
